@@ -449,3 +449,98 @@ func c05ReplacementInstalled(c *Ctx) {
 	}
 	c.Check("C05.R9", funcKey(up)+":handler-always-called", at, ok, "success is reported only after the handler ran", "clusterManager.UpdateHosts can report success without running the host update handler: the pushed host set is dropped")
 }
+
+// snapshotLBBuiltFromItsHostSet (C05.R10 / C06.R7): the balancer a snapshot publishes was built from the host set the same
+// snapshot publishes. simpleCluster.UpdateHosts stores a fresh clusterSnapshot{lb, hostSet, info}. Every policy keeps its own
+// image of the hosts (weights in the EDF scheduler, the maglev table, subset indexes), so the two fields describe the same
+// membership and the same weights only if `lb` is the result of a balancer constructor that received this very `hostSet`
+// value - on every path, also through a helper of the package. A balancer kept from the previous update "because nothing
+// changed" serves the previous weights (and hosts) whenever the notion of "nothing changed" forgets a field.
+func snapshotLBBuiltFromItsHostSet(c *Ctx, rule string) {
+	pkg := "pkg/upstream/cluster"
+	fn := c.M(pkg, "simpleCluster", "UpdateHosts")
+	if fn == nil {
+		c.Unresolved(rule, "simpleCluster.UpdateHosts")
+		return
+	}
+	var lbVal, hsVal ssa.Value
+	var at token.Pos
+	forEachInstr(fn, false, func(_ *ssa.Function, in ssa.Instruction) {
+		st, ok := in.(*ssa.Store)
+		if !ok {
+			return
+		}
+		t, f, _, ok := fieldAddrInfo(st.Addr)
+		if !ok || !strings.HasSuffix(t, "clusterSnapshot") {
+			return
+		}
+		switch f {
+		case "lb":
+			lbVal, at = st.Val, st.Pos()
+		case "hostSet":
+			hsVal = st.Val
+		}
+	})
+	if lbVal == nil || hsVal == nil {
+		c.Unresolved(rule, "the clusterSnapshot literal of simpleCluster.UpdateHosts (lb / hostSet)")
+		return
+	}
+	why := ""
+	var built func(v ssa.Value, hs ssa.Value, d int) bool
+	built = func(v ssa.Value, hs ssa.Value, d int) bool {
+		if d > 6 {
+			why = "analysis depth exceeded"
+			return false
+		}
+		switch x := v.(type) {
+		case *ssa.Phi:
+			for _, e := range x.Edges {
+				if !built(e, hs, d+1) {
+					return false
+				}
+			}
+			return true
+		case *ssa.MakeInterface:
+			return built(x.X, hs, d+1)
+		case *ssa.ChangeInterface:
+			return built(x.X, hs, d+1)
+		case *ssa.Call:
+			callee := x.Common().StaticCallee()
+			args := x.Common().Args
+			idx := -1
+			for i, a := range args {
+				if a == hs {
+					idx = i
+				}
+			}
+			if idx < 0 {
+				why = "built by " + calleeName(x.Common()) + " without this host set"
+				return false
+			}
+			name := methodName(x.Common())
+			if strings.HasPrefix(name, "New") && strings.Contains(name, "LoadBalancer") {
+				return true
+			}
+			// a helper of the package: each of its results must be built from the parameter that receives the host set
+			if callee != nil && len(callee.Blocks) > 0 && callee.Pkg == fn.Pkg && idx < len(callee.Params) {
+				for _, rs := range returnSites(callee, 0) {
+					if !built(rs.val, callee.Params[idx], d+1) {
+						return false
+					}
+				}
+				return true
+			}
+			why = "built by " + calleeName(x.Common()) + ", which is not a balancer constructor"
+			return false
+		case *ssa.UnOp:
+			if _, f, _, ok := fieldAddrInfo(x.X); ok {
+				why = "taken from the field " + f + " (a balancer of an earlier update)"
+				return false
+			}
+		}
+		why = fmt.Sprintf("of unrecognised origin (%T)", v)
+		return false
+	}
+	ok := built(lbVal, hsVal, 0)
+	c.Check(rule, funcKey(fn)+":snapshot-lb-built-from-its-host-set", at, ok, "the published balancer is constructed from the published host set on every path", "the load balancer published in a cluster snapshot is not always built from the host set published with it ("+why+"): the balancer serves the weights and members of an earlier update while the snapshot's host set shows the new ones")
+}
